@@ -53,10 +53,11 @@ CLAIMED = {
         note="Kernel-level only.",
         ref="2 C07"),
     "C08": dict(
-        text="PARTIAL (thin). Lexer-level half of the spelling rewrites: '--name=value' split at the first '=', short cluster walk and exact remainder, "
-             "strip of one leading '=' - for all byte strings up to the bound. Alias keys, prefix inference and whole-ArgMatches equality are out of reach.",
-        note="Re-uses C13/C14 harnesses over clap_lex; says nothing about parse_long_arg/parse_short_arg.",
-        ref="2 C08"),
+        text="PARTIAL (thin). (Kani) lexer-level half of the spelling rewrites: '--name=value' split at the first '=', short cluster walk and exact remainder, "
+             "strip of one leading '=' - for all byte strings up to the bound. (MIR->SMT) prefix inference never resolves an ambiguous prefix: possible_subcommand / possible_long_flag_subcommand return an "
+             "inferred name only when the candidate iterator has no second element, parse_long_arg's uniqueness filter and candidate closure likewise. Alias keys and whole-ArgMatches equality are out of reach.",
+        note="Re-uses C13/C14 harnesses over clap_lex; the candidate iterators themselves are opaque (what they enumerate is not decided).",
+        ref="2 C08", technique=MIX),
     "C09": dict(
         text="PARTIAL (very thin). Data-flow check (MIR->SMT path enumeration, feasibility by z3 + cvc5) of Parser::parse_subcommand: on every feasible path the child parser and the child matcher are both created "
              "from the command returned by _build_subcommand(name), the child parser parses into the child's own matcher, the child's matches are attached to the parent matcher exactly once, and a child "
@@ -152,7 +153,7 @@ def main():
         "engines": [
             {"name": "kani", "path": "/verif/runner/kani.py", "serves_properties": sorted(p for p in CLAIMED if p != "C12"),
              "kind_free_text": "Kani 0.68/CBMC 6.11 harnesses (kani/lex external crate; harness/*.rs included into clap_builder under cfg clap_verif); counterexamples replayed natively via concrete playback"},
-            {"name": "mirsmt", "path": "/verif/runner/mir_check.py", "serves_properties": ["C01", "C02", "C03", "C04", "C05", "C06", "C09", "C10", "C11", "C12", "C18", "C19", "C20"],
+            {"name": "mirsmt", "path": "/verif/runner/mir_check.py", "serves_properties": ["C01", "C02", "C03", "C04", "C05", "C06", "C08", "C09", "C10", "C11", "C12", "C18", "C19", "C20"],
              "kind_free_text": "MIR (cargo +nightly rustc -Zunpretty=mir, overflow checks on) of loop-free scalar functions -> SMT-LIB2 bit-vector queries (mirsmt/*.py), decided by z3 and cvc5; candidates realised by a native #[test] in the harness module"},
         ],
         "checks": checks,
